@@ -79,11 +79,13 @@ def rpOps (rbufsize : Nat) : RP → List String → Option (List String)
 def handle (op : String) (args : List String) : Option String :=
   match op, args with
   | "c19.prefix", [n] => some <| match nat? n with
-      | some n => hex (fmtHex Gen.PktLine.fmtWidth (n + Gen.PktLine.fmtHdr)) | none => "bad-arg"
+      | some n => if n > Gen.PktLine.maxDataLen then "V"
+                  else hex (fmtHex Gen.PktLine.fmtWidth (n + Gen.PktLine.fmtHdr))
+      | none => "bad-arg"
   | "c19.pktline", [p] => some <| match pkt? p with
-      | some p => hex (pktLine p) | none => "bad-arg"
+      | some p => (match pktLine p with | some f => hex f | none => "V") | none => "bad-arg"
   | "c19.pktseq", ps => some <| match ps.mapM pkt? with
-      | some ps => hex (pktSeq ps) | none => "bad-arg"
+      | some ps => (match pktSeq ps with | some f => hex f | none => "V") | none => "bad-arg"
   | "c19.parselen", [h] => some <| match bytes? h with
       | some s => (match parseLen s with | .ok n => s!"ok {n}" | .protocol => "P" | .other => "O")
       | none => "bad-arg"
@@ -108,7 +110,7 @@ def handle (op : String) (args : List String) : Option String :=
           | some outs => joinSp outs | none => "bad-arg")
       | none => "bad-arg"
   | "c19.sideband", [ch, h] => some <| match nat? ch, bytes? h with
-      | some ch, some b => blobs (writeSideband (UInt8.ofNat ch) b)
+      | some ch, some b => (match writeSideband (UInt8.ofNat ch) b with | some l => blobs l | none => "V")
       | _, _ => "bad-arg"
   | "c19.demux", pkts => some <| match pkts.mapM bytes? with
       | some ps => (match sidebandDemux ps with
@@ -116,7 +118,7 @@ def handle (op : String) (args : List String) : Option String :=
           | none => "T")
       | none => "bad-arg"
   | "c19.bufwriter", bs :: datas => some <| match nat? bs, datas.mapM bytes? with
-      | some bs, some ds => blobs (bwRun bs ⟨[], 0⟩ ds)
+      | some bs, some ds => (match bwRun bs ⟨[], 0⟩ ds with | some l => blobs l | none => "V")
       | _, _ => "bad-arg"
   | "c19.caps.extract", [h] => some <| match bytes? h with
       | some t => (match extractCapabilities t with
